@@ -265,6 +265,33 @@ func instrumentFile(path, rel, out string) {
 			}
 		}
 	}
+	// the processor count the code under test sees is a seam, too: runtime.GOMAXPROCS(n) and
+	// runtime.NumCPU() are wrapped (insert-only, the original call stays) in simrt.Procs(...)
+	ast.Inspect(f, func(n ast.Node) bool {
+		if g, ok := n.(*ast.GoStmt); ok {
+			// goroutines started by the code under test are not tasks of the cooperative
+			// scheduler: while any is alive no yield point hands control to the scheduler
+			// (neither theirs nor the parent's), so that stretch is one scheduling step. A
+			// goroutine whose end cannot be bracketed (go f(x)) switches yields off for the
+			// rest of the execution.
+			add(off(g.Pos()), "simrt.Foreign(1); ")
+			if fl, ok := g.Call.Fun.(*ast.FuncLit); ok {
+				add(off(fl.Body.Lbrace)+1, " defer simrt.Foreign(-1);")
+			}
+			return true
+		}
+		c, ok := n.(*ast.CallExpr)
+		if !ok {
+			return true
+		}
+		if sel, ok := c.Fun.(*ast.SelectorExpr); ok {
+			if x, ok := sel.X.(*ast.Ident); ok && x.Name == "runtime" && (sel.Sel.Name == "GOMAXPROCS" || sel.Sel.Name == "NumCPU") {
+				add(off(c.Pos()), "simrt.Procs(")
+				add(off(c.End()), ")")
+			}
+		}
+		return true
+	})
 	tail := ""
 	if reset.Len() > 0 {
 		fn := "simResetVars_" + sanitize(filepath.Base(rel))
@@ -331,6 +358,8 @@ const simrtSrc = `// Package simrt is generated by /verif/sim/cmd/instrument int
 // copy only. With Hook == nil (the default) every call is a no-op.
 package simrt
 
+import "sync/atomic"
+
 // Hook is called at every yield point while a simulated schedule is active.
 var Hook func(site int)
 
@@ -343,11 +372,54 @@ type reset struct {
 
 var resets []reset
 
+// foreign counts live goroutines started by the code under test (see Foreign).
+var foreign int32
+
+// foreignSeen counts go statements executed by the code under test since process start.
+var foreignSeen int32
+
+//go:norace
+func ForeignSeen() int32 { return atomic.LoadInt32(&foreignSeen) }
+
+// Foreign(+1) before a go statement of the code under test, Foreign(-1) when that goroutine ends.
+//
+//go:norace
+func Foreign(d int32) {
+	if d > 0 {
+		atomic.AddInt32(&foreignSeen, 1)
+	}
+	for {
+		v := atomic.LoadInt32(&foreign)
+		n := v + d
+		if n < 0 {
+			n = 0
+		}
+		if atomic.CompareAndSwapInt32(&foreign, v, n) {
+			return
+		}
+	}
+}
+
 //go:norace
 func Yield(site int) {
+	if atomic.LoadInt32(&foreign) != 0 {
+		return
+	}
 	if h := Hook; h != nil && depth == 0 {
 		h(site)
 	}
+}
+
+// SimProcs, when > 0, is the processor count the code under test sees during the current
+// simulated execution (set by the harness between executions only).
+var SimProcs int
+
+//go:norace
+func Procs(real int) int {
+	if SimProcs > 0 {
+		return SimProcs
+	}
+	return real
 }
 
 // NoYield brackets regions in which the running task holds a lock.
@@ -356,7 +428,7 @@ func Yield(site int) {
 func NoYield(d int) { depth += d }
 
 //go:norace
-func ResetDepth() { depth = 0 }
+func ResetDepth() { depth = 0; atomic.StoreInt32(&foreign, 0) }
 
 func RegisterReset(name string, f func()) { resets = append(resets, reset{name, f}) }
 
@@ -364,6 +436,7 @@ func RegisterReset(name string, f func()) { resets = append(resets, reset{name, 
 // the instrumented packages: the state of a freshly started process.
 func ResetAll() {
 	depth = 0
+	atomic.StoreInt32(&foreign, 0)
 	for _, r := range resets {
 		r.f()
 	}
